@@ -105,7 +105,7 @@ def coq_check_props(pid):
         facts_log = r.stdout
         t0 = time.time()
         target = 'Props/Properties_%s.vo' % pid
-        r = sh(['timeout', '900', 'make', '-C', COQ, '-k', '-j16', target])
+        r = sh(['timeout', '400', 'make', '-C', COQ, '-k', '-j16', target])
         log = r.stdout
         ok = (r.returncode == 0) and os.path.exists(os.path.join(COQ, target))
         res = {'ok': ok, 'log': log[-6000:], 'facts_log': facts_log, 'wall': time.time() - t0}
